@@ -22,6 +22,16 @@ CLAIMED = {
  "C08": ("partial (weakest proof content): iteration order of the hash table model depends only on hash values and history; string hash is a function of the bytes; the sort used when writing symbol meanings is permutation-invariant on distinct keys; every pointer-keyed table in the regenerated list is not iterated or is in a reviewed allow-list. ASLR, collector timing, environment and batching are runtime facts examined by repeated-run search only.",
          "translator (clang AST: pointer-keyed tables and their iterations) + Lean 4 lemmas + repeated-run / ASLR / forced-GC / batched differential search",
          "A regenerated list of address-keyed tables must be covered by a reviewed allow-list (Lean decide); outputs of ~20 units are byte-compared across runs, ASLR on/off, forced collections (hook), environments and batched invocation."),
+
+ "C09": ("partial: an abstract mutator machine with a conservative mark/sweep collector (interior pointers, pointer-free kinds) is proved GC-transparent for every schedule (trace equality by simulation; reachable pieces untouched; swept pieces poisoned and never observed by safe programs); registers, compiler temporaries, fintFreeJunk and pointer killing are runtime facts covered by the forced-collection schedule sweep (hook) on real programs, both routes.",
+         "Lean 4 simulation proof over abstract heap machine + differential correspondence with store.c's collector + forced-GC schedule sweep via hook",
+         "Lean theorems: collection preserves the reachable heap and every schedule yields the same trace; store.c's collector is run on random object graphs against the model; 14 allocation-heavy programs are run under forced-collection schedules (ALDOR_VERIF_GC) interpreted and compiled."),
+ "C17": ("partial: object-file header and section table parsing, header check, section fetch with explicit file length, and the archive member walk are modelled after the (repaired) reader and proved: intact files accepted, accepted headers have all sections inside the file, every truncation of a file ending in its last section is refused; the FOAM/symbol decoders trusting counts inside section bodies are not modelled: single-byte damage inside bodies is covered by the damage sweep (remaining failure classes are recorded findings).",
+         "Lean 4 proof over hand model of lib.c header/section reader and archive walk + differential correspondence + exhaustive-by-class damage sweep",
+         "Lean theorems about the header reader; the model is compared with lib.c on ~7k byte strings per run; valid .ao/.al/.fm files are truncated and byte-substituted and the compiler's reaction is classified."),
+ "C18": ("partial: a regenerated table of every close/write/flush site on output streams (clang AST) must consist of checked sites (Lean decide), and for a file-system model where any step may fail 'all sites checked' implies 'exit 0 only if every output is complete'; libc buffering is abstracted as 'an error surfaces at a write, flush or close'. Tied by fault injection on the real compiler.",
+         "translator (clang AST: output-stream close/write sites and whether their result is tested) + Lean 4 proof + fault-injection sweep (/dev/full, LD_PRELOAD failing write/close)",
+         "Every run regenerates the site table from the current sources and re-proves that all sites are checked; each output kind is produced under injected write/close failures and exit status vs completeness is classified."),
  "C10": ("partial: allocator bookkeeping (sections, fixed-size free lists, mixed pieces with split/merge/best fit, resize, recode, sweep) modelled and proved: invariant for every history, alignment, size, disjointness, free/resize/sweep effects; OS page layer is an input, stack scanning and byte contents are not modelled (contents checked on the implementation by the byte-pattern oracle).",
          "Lean 4 invariant proof by induction over operation histories + differential correspondence with recorded page grants + property oracle on the implementation's output",
          "Lean invariant theorems over allocator histories; store.c is driven with the same histories (offsets/sizes compared with the model) and its answers are checked for alignment, size, disjointness, audit and preserved contents."),
